@@ -263,6 +263,7 @@ func (g *gen) execInstr(fr *frame, cur *node, st *State, ins ssa.Instruction) *n
 		if _, isArr := el.Underlying().(*types.Array); !isArr {
 			g.storeAt(cur, st, ref, el, g.zeroVal(el))
 		}
+		g.zeroGhostFields(cur, st, ref, el)
 	case *ssa.FieldAddr:
 		base := g.sval(fr, x.X)
 		if _, ok := x.X.(*ssa.Alloc); !ok {
@@ -993,4 +994,36 @@ func (g *gen) closurePurity(fr *frame, n *node, st *State, mc *ssa.MakeClosure) 
 	}
 	n.assume(body)
 	g.used["verified:"+fs.Key] = true
+}
+
+// zeroGhostFields: a freshly allocated object starts with zero/empty ghost state.
+func (g *gen) zeroGhostFields(n *node, st *State, ref string, t types.Type) {
+	k, ok := namedStructKey(t)
+	if !ok {
+		return
+	}
+	for gk, gd := range g.P.spec.GhostFields {
+		if !strings.HasPrefix(gk, k+".") || strings.Count(strings.TrimPrefix(gk, k+"."), ".") != 0 {
+			continue
+		}
+		xt, err := g.resolveType(gd.Type, gd.PkgPath, gd.Imports)
+		if err != nil {
+			continue
+		}
+		var z string
+		switch {
+		case xt.K != nil && xt.E != nil && xt.E.S == "Bool":
+			z = "((as const " + xt.S + ") false)"
+		case xt.K != nil:
+			continue // contents of an empty map are irrelevant
+		default:
+			z = zeroOfSort(xt.S)
+		}
+		if z == "" {
+			continue
+		}
+		name := ghostFieldMapName(t, strings.TrimPrefix(gk, k+"."))
+		srt := "(Array Ref " + xt.S + ")"
+		g.svAssign(n, st, name, srt, app("store", g.svGet(st, name, srt), ref, z))
+	}
 }
